@@ -273,8 +273,10 @@ class Check:
             "coverage": coverage, "assumptions": self.assumptions, "wall_s": round(wall, 2),
             "violations": len(self.violations),
         }
-        os.makedirs(os.path.join(VERIF_ROOT, "evidence"), exist_ok=True)
-        path = os.path.join(VERIF_ROOT, "evidence", self.prop + ".json")
+        # runs against a mutated tree (development aid tools/run_seeded.sh) keep the committed evidence untouched
+        evdir = os.environ.get("VERIF_EVIDENCE_DIR") or os.path.join(VERIF_ROOT, "evidence")
+        os.makedirs(evdir, exist_ok=True)
+        path = os.path.join(evdir, self.prop + ".json")
         tmp = path + ".tmp%d" % os.getpid()
         with open(tmp, "w") as f:
             json.dump(ev, f, indent=1, default=repr)
